@@ -172,6 +172,7 @@ package security
 
 import (
 	"fmt"
+	"reflect"
 	"regexp"
 	"strings"
 	"sync"
@@ -486,7 +487,7 @@ func (s *Scanner) Scan(tree *ast.AST) *ScanResult {
 	}
 
 	for _, stmt := range tree.Statements {
-		s.scanStatement(stmt, result)
+		s.scanNode(stmt, result)
 	}
 
 	// Update counts
@@ -552,113 +553,54 @@ func (s *Scanner) ScanSQL(sql string) *ScanResult {
 	return result
 }
 
-// scanStatement analyzes a single statement for injection patterns.
-func (s *Scanner) scanStatement(stmt ast.Statement, result *ScanResult) {
-	switch st := stmt.(type) {
-	case *ast.SelectStatement:
-		s.scanSelectStatement(st, result)
-	case *ast.InsertStatement:
-		s.scanInsertStatement(st, result)
-	case *ast.UpdateStatement:
-		s.scanUpdateStatement(st, result)
-	case *ast.DeleteStatement:
-		s.scanDeleteStatement(st, result)
-	case *ast.SetOperation:
-		s.scanSetOperation(st, result)
-	}
-}
+// scanNode applies the local detectors to every node of a statement.
+//
+// The whole tree is traversed with ast.Inspect, so a pattern is reported wherever it is
+// written: the WHERE/HAVING clause of the statement itself, JOIN conditions, select list,
+// CASE, IN lists, BETWEEN bounds, function arguments, and the same positions of every nested
+// statement (derived tables, sub-queries, CTE bodies, INSERT ... SELECT, set operations).
+func (s *Scanner) scanNode(root ast.Node, result *ScanResult) {
+	// The parser shares the sub-query of a derived table between SelectStatement.From and the
+	// Left side of the first JoinClause: report its findings once.
+	seen := make(map[*ast.SelectStatement]bool)
 
-// scanSelectStatement analyzes SELECT for injection patterns.
-func (s *Scanner) scanSelectStatement(stmt *ast.SelectStatement, result *ScanResult) {
-	// Check WHERE clause for tautologies
-	if stmt.Where != nil {
-		s.scanExpression(stmt.Where, result, "WHERE clause")
-	}
-
-	// Check HAVING clause
-	if stmt.Having != nil {
-		s.scanExpression(stmt.Having, result, "HAVING clause")
-	}
-
-	// Check for suspicious function calls in columns
-	for _, col := range stmt.Columns {
-		s.scanExpressionForDangerousFunctions(col, result)
-	}
-}
-
-// scanInsertStatement analyzes INSERT for injection patterns.
-func (s *Scanner) scanInsertStatement(stmt *ast.InsertStatement, result *ScanResult) {
-	// Check values for suspicious patterns (multi-row support)
-	for _, row := range stmt.Values {
-		for _, val := range row {
-			s.scanExpressionForDangerousFunctions(val, result)
+	ast.Inspect(root, func(n ast.Node) bool {
+		if isNilNode(n) {
+			return false
 		}
-	}
-}
 
-// scanUpdateStatement analyzes UPDATE for injection patterns.
-func (s *Scanner) scanUpdateStatement(stmt *ast.UpdateStatement, result *ScanResult) {
-	// Check WHERE clause
-	if stmt.Where != nil {
-		s.scanExpression(stmt.Where, result, "WHERE clause")
-	}
-
-	// Check SET values
-	for _, assignment := range stmt.Assignments {
-		s.scanExpressionForDangerousFunctions(assignment.Value, result)
-	}
-}
-
-// scanDeleteStatement analyzes DELETE for injection patterns.
-func (s *Scanner) scanDeleteStatement(stmt *ast.DeleteStatement, result *ScanResult) {
-	// Check WHERE clause
-	if stmt.Where != nil {
-		s.scanExpression(stmt.Where, result, "WHERE clause")
-	}
-}
-
-// scanSetOperation analyzes UNION/EXCEPT/INTERSECT for injection patterns.
-func (s *Scanner) scanSetOperation(stmt *ast.SetOperation, result *ScanResult) {
-	// UNION-based injection detection
-	if strings.ToUpper(stmt.Operator) == "UNION" {
-		// Check if UNION might be used for data extraction
-		s.checkUnionInjection(stmt, result)
-	}
-
-	// Recursively scan left and right statements
-	// Note: SetOperation.Left and .Right are already ast.Statement type
-	if stmt.Left != nil {
-		s.scanStatement(stmt.Left, result)
-	}
-	if stmt.Right != nil {
-		s.scanStatement(stmt.Right, result)
-	}
-}
-
-// scanExpression analyzes an expression for injection patterns.
-func (s *Scanner) scanExpression(expr ast.Expression, result *ScanResult, context string) {
-	if expr == nil {
-		return
-	}
-
-	switch e := expr.(type) {
-	case *ast.BinaryExpression:
-		s.scanBinaryExpression(e, result, context)
-	case *ast.FunctionCall:
-		s.scanFunctionCall(e, result)
-	case *ast.UnaryExpression:
-		if e.Expr != nil {
-			s.scanExpression(e.Expr, result, context)
+		switch e := n.(type) {
+		case *ast.SelectStatement:
+			if seen[e] {
+				return false
+			}
+			seen[e] = true
+		case *ast.SetOperation:
+			// UNION-based injection detection
+			if strings.ToUpper(e.Operator) == "UNION" {
+				s.checkUnionInjection(e, result)
+			}
+		case *ast.BinaryExpression:
+			s.scanBinaryExpression(e, result)
+		case *ast.FunctionCall:
+			s.scanFunctionCall(e, result)
 		}
-	}
+		return true
+	})
 }
 
-// scanBinaryExpression checks for tautologies and suspicious patterns.
-func (s *Scanner) scanBinaryExpression(expr *ast.BinaryExpression, result *ScanResult, context string) {
-	if expr == nil {
-		return
+// isNilNode reports whether n is nil or a nil pointer wrapped in the Node interface.
+func isNilNode(n ast.Node) bool {
+	if n == nil {
+		return true
 	}
+	v := reflect.ValueOf(n)
+	return v.Kind() == reflect.Ptr && v.IsNil()
+}
 
+// scanBinaryExpression checks one binary expression for tautologies and OR-based patterns.
+// Its operands are visited by the traversal.
+func (s *Scanner) scanBinaryExpression(expr *ast.BinaryExpression, result *ScanResult) {
 	// Check for tautologies (always true conditions)
 	if s.isTautology(expr) {
 		finding := Finding{
@@ -677,10 +619,6 @@ func (s *Scanner) scanBinaryExpression(expr *ast.BinaryExpression, result *ScanR
 	if strings.ToUpper(expr.Operator) == "OR" {
 		s.checkOrInjection(expr, result)
 	}
-
-	// Recursively check sub-expressions
-	s.scanExpression(expr.Left, result, context)
-	s.scanExpression(expr.Right, result, context)
 }
 
 // isTautology checks if an expression is always true.
@@ -829,7 +767,8 @@ func (s *Scanner) isSystemTable(tableName string) bool {
 	return false
 }
 
-// scanFunctionCall checks for dangerous function usage.
+// scanFunctionCall checks one function call for dangerous function usage.
+// Its arguments are visited by the traversal.
 func (s *Scanner) scanFunctionCall(fn *ast.FunctionCall, result *ScanResult) {
 	if fn == nil {
 		return
@@ -881,28 +820,6 @@ func (s *Scanner) scanFunctionCall(fn *ast.FunctionCall, result *ScanResult) {
 		if s.shouldInclude(finding.Severity) {
 			result.Findings = append(result.Findings, finding)
 		}
-	}
-
-	// Recursively check function arguments
-	for _, arg := range fn.Arguments {
-		s.scanExpressionForDangerousFunctions(arg, result)
-	}
-}
-
-// scanExpressionForDangerousFunctions recursively checks for dangerous functions.
-func (s *Scanner) scanExpressionForDangerousFunctions(expr ast.Expression, result *ScanResult) {
-	if expr == nil {
-		return
-	}
-
-	switch e := expr.(type) {
-	case *ast.FunctionCall:
-		s.scanFunctionCall(e, result)
-	case *ast.BinaryExpression:
-		s.scanExpressionForDangerousFunctions(e.Left, result)
-		s.scanExpressionForDangerousFunctions(e.Right, result)
-	case *ast.UnaryExpression:
-		s.scanExpressionForDangerousFunctions(e.Expr, result)
 	}
 }
 
